@@ -8,7 +8,7 @@
    recomputed on an unchanged tree is PROVED for flat trees with any number of generations (C09_unchanged_flat_tree_exit_0,
    C09_flat_invariant below); for nested histories it is the lockstep correspondence's job (create and verify -dh call
    the same `dirhash`). *)
-From MHL Require Import Model.Commands Gen.Generated Proofs.BaseFacts Proofs.CodecFacts Proofs.DirHashFacts Proofs.VerifyFacts Proofs.SensFacts Proofs.TreeFacts Proofs.HistFacts Proofs.FlatFacts Proofs.FlatDhFacts Proofs.StructFacts Proofs.ReloadFacts Proofs.NestedFacts Proofs.NestedDhFacts.
+From MHL Require Import Model.Commands Gen.Generated Proofs.BaseFacts Proofs.CodecFacts Proofs.DirHashFacts Proofs.VerifyFacts Proofs.SensFacts Proofs.TreeFacts Proofs.HistFacts Proofs.FlatFacts Proofs.FlatDhFacts Proofs.StructFacts Proofs.ReloadFacts Proofs.NestedFacts Proofs.NestedDhFacts Gen.GeneratedFns Proofs.SourceLookupFacts.
 
 Theorem C09_never_aborts : forall Hb matches C cdig t f co ro ip ifl,
   exists c, o_outcome (snd (verify_dh Hb matches C cdig t f co ro ip ifl)) = Exit c.
@@ -26,6 +26,15 @@ Proof. exact verify_dh_exit. Qed.
 Print Assumptions C09_exit_code.
 Theorem C09_code_is_12 : exit_verification_directories_failed = 12%Z.
 Proof. exact dh_code_is_12. Qed.
+
+(* the lookup of the recorded directory hashes (MHLHistory.find_directory_hash_entries_for_path, the property's fourth anchor) is
+   tied to the source on every run: translator/gen.py requires the method's body to be exactly the recorded text
+   (shape-locked: the method tags entries by assigning attributes to them, which the model renders as pairs) and emits
+   src_find_directory_entries (Gen/GeneratedFns.v); it is the model's find_directory_entries -- every folder record of every
+   generation that mentions the path, then for the root the root hashes of every generation that has them, in order *)
+Theorem C09_source_directory_hash_lookup_is_the_models : forall gens p, src_find_directory_entries gens p = find_directory_entries gens p.
+Proof. exact src_find_directory_entries_is_model. Qed.
+Print Assumptions C09_source_directory_hash_lookup_is_the_models.
 
 Theorem C09_entry_fails_iff_hash_differs : forall Hb matches C spec fmts t p es f,
   In f (dh_failures Hb matches C spec fmts t p es) <->
